@@ -15,11 +15,16 @@ PLAN = {
     "quick": [
         ("c3x1", 2, "line", 1), ("c22", 2, "line", 1), ("c3", 3, "line", 1),
         ("x3x1", 2, "line", 1), ("x22", 2, "line", 1), ("x3", 16, "line", 1),
+        ("c3p", 2, "line", 1), ("x3p", 2, "line", 1),
         ("c3", 2, "instruction", 1),
         ("c3x1", 1, "line", 1),
     ],
     "thorough": [
         (h, w, "line", 1) for h in ("c3x1", "c22", "c2x2", "c3", "x3x1", "x22", "x2x2", "x3") for w in (1, 2, 3, 4, 16)
+    ] + [
+        (h, w, "line", 1) for h in ("c3p", "x3p", "x2x2p", "c3z") for w in (2, 3)
+    ] + [
+        (h, 2, "instruction", 1) for h in ("c3p", "x3p")
     ] + [
         (h, 2, "instruction", 1) for h in ("c3x1", "c22", "c2x2", "c3", "x3x1", "x22", "x2x2", "x3")
     ] + [
@@ -137,7 +142,7 @@ def free_running(tier):
     bad = []
     runs = 0
     try:
-        names = [h for h in ("c3x1", "c22", "c2x2", "c3", "x3x1", "x22", "x2x2", "x3")]
+        names = [h for h in ("c3x1", "c22", "c2x2", "c3", "x3x1", "x22", "x2x2", "x3", "c3p", "x3p", "x2x2p")]
         sd = core.seed()
         names = names[sd % len(names):] + names[:sd % len(names)]
         for h in names:
